@@ -52,7 +52,7 @@ CHECKS = {
          "For every layout (shared memory / one Redis / two Redis x same or distinct cookie names x differing time-outs) and every history of logins and cross-filter cookie presentations (as issued, renamed, both names): a chain answers OK only for sessions created through it and forwards its own realm's tokens, redirects and token requests use its own provider and credentials, Redis TTLs follow the filter's own time-outs - except the listed known findings (shared store keyed by session id; first/last filter's time-outs).",
          "Real clock at server level (no expiry/refresh in these histories); real-time part asserts only 'dead after 4 s for a 2 s limit' and 'alive for 3600 s'."),
  "C19": ("seqx", "4 C19", "explicit-state BFS over Secret events and Reconcile deliveries on the real SecretController (controller-runtime fake client) against a reference map",
-         "For every explored history (depth 4 quick / 5 thorough over 4 Secret objects, 3 or all 28 filter-to-secret assignments) every filter's client secret equals the last non-empty value reconciled while not deleting for the Secret it references, literal filters and other namespaces' Secrets never change anything, the token endpoint sees the current value, and cross-namespace references are refused at start-up.",
+         "For every explored history (depth 6 quick / 7 thorough over 4 Secret objects, 3 or all 28 filter-to-secret assignments) every filter's client secret equals the last non-empty value reconciled while not deleting for the Secret it references, literal filters and other namespaces' Secrets never change anything, the token endpoint sees the current value, and cross-namespace references are refused at start-up.",
          "Reconcile deliveries are explicit events; informer machinery not modelled."),
  "C20": ("enumx+seqx+schedx", "4 C20", "full product of TLS settings judged by real handshakes; BFS over CA rotation histories with a virtual ticker; exhaustive interleavings of concurrent loads and rotation",
          "108 settings combinations trust exactly the configured CA (or everything only with skip and no CA); in every rotation history (depth 5/7) every client trusts the content its watcher last saw after a tick, equal settings share one *tls.Config, tickers never outnumber watched settings; all interleavings of concurrent first loads / load vs rotation end with shared configs that follow the rotation.",
